@@ -86,6 +86,11 @@ def main():
                 stored = "f8"
         else:
             vals = [rnd.choice([rnd.randint(-20, 20) + rnd.choice([0, 0.5, 0.25, 0.75]), -9999.0 if flavour == "marker" else 1.5, 2.5, -3.5, 0.0]) for _ in range(size)]
+        if flavour in ("plain", "marker") and stored in ("f8", "f4") and size >= 2:
+            # real values a hair away from the markers tried below (-9999, 0, 2.5, 1.5): they are values, not missing cells
+            for _ in range(rnd.randint(1, 2)):
+                vals[rnd.randrange(size)] = rnd.choice([-9998.95, -9999.05, -9998.999, 2.50001, 1.4999999, 3e-9, -2e-9, 2.4999])
+            dist["near_marker_values"] = dist.get("near_marker_values", 0) + 1
         if stored.startswith("i"):
             vals = [float(int(v)) for v in vals]
         if stored == "packed":
